@@ -233,8 +233,12 @@ async def patch_slave_device(request: core_api.APIRequest, name: str, params: Ge
     if not slave:
         raise core_api.APIError(404, 'no-such-device')
 
-    # Refuse inconsistent requests before applying anything
-    if params.get('poll_interval') and params.get('listen_enabled'):
+    # Refuse inconsistent requests before applying anything; what the request leaves out stays as it is, so it counts too
+    # (polling and listening set by two separate requests would otherwise both be on, a state that `POST /devices` and
+    # `PUT /devices` refuse: the device's own backup could not be restored)
+    poll_interval = params['poll_interval'] if params.get('poll_interval') is not None else slave.get_poll_interval()
+    listen_enabled = params['listen_enabled'] if params.get('listen_enabled') is not None else slave.is_listen_enabled()
+    if poll_interval and listen_enabled:
         raise core_api.APIError(400, 'listening-and-polling')
 
     if params.get('enabled') is True and not slave.is_enabled():
